@@ -105,12 +105,21 @@ func cmdMatrix(args []string) int {
 		ids = append(ids, id)
 	}
 	sort.Strings(ids)
+	// known findings of the unchanged tree are not news in a matrix
+	knownKeys := map[string]bool{}
+	if known, err := loadKnownFindings("/verif"); err == nil {
+		for _, k := range known {
+			if k.Status == "known" {
+				knownKeys[k.Key] = true
+			}
+		}
+	}
 	for _, id := range ids {
 		var keys, und []string
 		for _, rn := range propRegistry[id].Rules {
 			r := c.runRule(rn)
 			for _, ob := range r.Obls {
-				if !ob.OK {
+				if !ob.OK && !knownKeys[ob.Key] {
 					keys = append(keys, ob.Key)
 				}
 			}
